@@ -36,8 +36,8 @@ META = {
     "ready": True,
     "category": "proof",
     "technique": "Lean 4 compiler-correctness theorems (code generator + stack VM with the real op codes refine the reference semantics of the lowered core with first-class closures) + a checked tie of that model to /repo: real bytecode replay on the model VM, compiler output comparison, five-way execution, op-code tables regenerated from the sources + differential execution of generated whole programs: real engine vs executable reference semantics",
-    "level_text": "Proved for every program of the lowered core with closures (SteelVerif/C01/PropsCore.lean, model C01/Core.lean: real op codes, one shared operand stack, real frame discipline): compile_correct_core / compile_correct_program (the VM running compileTop e refines evalC), closure_captures_by_reference, call_args_exact_core, tail_call_constant_frames, dead_code_never_runs_core, call_error_reported and the others listed in Audit.lean; and for the first-order fragment (Props.lean: compile_correct, read_after_write, dead_branch_*, call_arity_exact, call_args_exact). TIE of the core model to /repo, checked on every run: (1) REAL BYTECODE REPLAY - for every program the harness prints the listing of every compilation unit the engine is about to run (Engine::debug_build_strings of a clone of the very RawProgramWithSymbols that is then run; provisional global slots of the clone mapped to the slots the engine really bound via the symbol table rows); C01BC.toInstr (BCParse.lean) reads it into List C01C.Instr by the table in Core.lean's header and C01C.run executes it; value / error kind of every unit must equal the real VM's. (2) COMPILER OUTPUT COMPARISON - gen/core01.py emits programs inside the core (closures over assigned variables, let, if, begin, set!, computed / global / self-tail calls, rest arguments, boxes) as Steel source AND as lowered Core terms (scope resolution by the generator, unverified); compileTop e is compared with the real listing after the documented normalisation (READLOCALk, function ids, constant-pool indices, global slot renaming); share identical + histogram of difference classes in the evidence (a difference is not a violation). (3) FIVE-WAY RUN on these programs: evalC, C01C.run (compileTop e), C01C.run on the real listing, the real engine, and S (Base/Eval on the source) must agree unit by unit; the differing pair is printed. (4) translate/c01_opcodes.py regenerates GenOpcodes.lean (enum OpCode, arms of the dispatch loop of vm.rs); PropsTie.lean decides: every op code the reader maps to Instr exists in the enum, every one the model executes has a dispatch arm, the four word-only op codes have none (and step yields bad on them), the reader accepts no other name. (5) C09.tailOnlyB (proved-sound static check) is evaluated on the real listings of tail-only loop shapes: accepted listings are covered by C09.core_loop_constant_space. Whole programs of the documented core language (gen/progs.py: closures, mutation, internal defines, named let, rest arguments, library procedures, handled and dead errors, output) run on the real engine (top level and as a module) and on S as before; fragment programs on evalIR / model VM / real.",
-    "level_note": "Trusted: Lean kernel, harness/driver/comparison, the reference evaluator S as the reading of Scheme semantics (deviation table in Base/Eval.lean), generator coverage, the listing reader C01BC.toInstr and the slot remapping (inspectable, not proved), the generator's lowering source -> Core (independent scope resolution; validated only by the listing comparison and the five-way run). Share inside the model: all units of the core-generator programs and of the tail-only shapes; of the gen/progs whole programs every op code that occurs is modelled (see tie_core_model_to_repo.opcodes_seen_not_modelled) but almost every program calls built-ins the core VM does not have (lists, vectors, output, handlers): those units are counted per reason, not replayed. Not modelled: analysis.rs / the rewriting passes (inlining, lambda lifting, constant propagation show up as listing difference classes), ~55 specialised op codes that did not occur, the JIT (differential run only; differences that vanish with STEEL_JIT=false are K01j). compile_correct_core_errors and the statement for all error kinds: see PropsCore.lean.",
+    "level_text": "Proved for every program of the lowered core with closures (SteelVerif/C01/PropsCore.lean, model C01/Core.lean: real op codes, one shared operand stack, real frame discipline): compile_correct_core / compile_correct_program (the VM running compileTop e refines evalC), closure_captures_by_reference, call_args_exact_core, tail_call_constant_frames, dead_code_never_runs_core, call_error_reported and the others listed in Audit.lean; and for the first-order fragment (Props.lean: compile_correct, read_after_write, dead_branch_*, call_arity_exact, call_args_exact). TIE of the core model to /repo, checked on every run: (1) REAL BYTECODE REPLAY - for every program the harness prints the listing of every compilation unit the engine is about to run (Engine::debug_build_strings of a clone of the very RawProgramWithSymbols that is then run; provisional global slots of the clone mapped to the slots the engine really bound via the symbol table rows); C01BC.toInstr (BCParse.lean) reads it into List C01C.Instr by the table in Core.lean's header and C01C.run executes it; value / error kind of every unit must equal the real VM's. (2) COMPILER OUTPUT COMPARISON - gen/core01.py emits programs inside the core (closures over assigned variables, let, if, begin, set!, computed / global / self-tail calls, rest arguments, boxes) as Steel source AND as lowered Core terms (scope resolution by the generator, unverified); compileTop e is compared with the real listing after the documented normalisation (READLOCALk, function ids, constant-pool indices, global slot renaming); share identical + histogram of difference classes in the evidence (a difference is not a violation). (3) FIVE-WAY RUN on these programs: evalC, C01C.run (compileTop e), C01C.run on the real listing, the real engine, and S (Base/Eval on the source) must agree unit by unit; the differing pair is printed. (4) translate/c01_opcodes.py regenerates GenOpcodes.lean (enum OpCode, arms of the dispatch loop of vm.rs); PropsTie.lean decides: every op code the reader maps to Instr exists in the enum, every one the model executes has a dispatch arm, the four word-only op codes have none (and step yields bad on them), the reader accepts no other name. (1b) EXTENDED VM (C01/BCExt.lean, not proved) for whole programs: values = the values of S (Base.Val: symbols, strings, characters, pairs, vectors and boxes in S's store; closures as handles), built-ins applied by S's own primitive table Base.applyPrim (so a difference is about compiler+VM, not primitives), output buffer compared with the real output of every unit, apply, with-handler as the real expander emits it (*reset / call-with-exception-handler / *shift as marks on frames), the 47 core op codes + FUNCNOARITY / TAILCALLNOARITY / CALLGLOBALNOARITY / CALLGLOBALTAILNOARITY; S's library procedures (Base.preludeSrc: map, filter, foldl, foldr, for-each, reduce) are handed to the real compiler as the first unit of the replayed program; every corpus + gen/progs program is replayed (values, error kind, output per unit); the tie of the extended VM to the proved one is differential: on every listing inside the core set both run and must agree. (5) C09.tailOnlyB (proved-sound static check) is evaluated on the real listings of tail-only loop shapes: accepted listings are covered by C09.core_loop_constant_space. Whole programs of the documented core language (gen/progs.py: closures, mutation, internal defines, named let, rest arguments, library procedures, handled and dead errors, output) run on the real engine (top level and as a module) and on S as before; fragment programs on evalIR / model VM / real.",
+    "level_note": "Trusted: Lean kernel, harness/driver/comparison, the reference evaluator S as the reading of Scheme semantics (deviation table in Base/Eval.lean), generator coverage, the listing reader C01BC.toInstr and the slot remapping (inspectable, not proved), the generator's lowering source -> Core (independent scope resolution; validated only by the listing comparison and the five-way run). Share replayed: all units of the core-generator programs and of the tail-only shapes on the proved core VM; ALL corpus + gen/progs whole programs on the extended VM when S's library procedures are compiled with the program (tie_core_model_to_repo.whole_programs_replayed_on_extended_vm), about 40% of the unmodified programs (the rest call the engine's own map / filter / foldl, counted per reason under whole_native_library). The extended VM is executable Lean without theorems; call/cc, dynamic-wind, continuations used other than by with-handler, floats, hash maps, the deprecated ALLOC/READALLOC/SETALLOC op codes (their real handlers panic: K01m) are outside and reported per reason. Deviation found in S: steel's `void` is the void VALUE, `(void)` applies a non-procedure; Base/Eval.lean accepts `(void)` (the replay prelude writes `void`). Not modelled: analysis.rs / the rewriting passes (inlining, lambda lifting, constant propagation show up as listing difference classes), ~55 specialised op codes that did not occur, the JIT (differential run only; differences that vanish with STEEL_JIT=false are K01j). compile_correct_core_errors and the statement for all error kinds: see PropsCore.lean.",
 }
 
 SEP = "\n;;;===\n"
@@ -188,7 +188,29 @@ MODELLED_OPS = set("""PUSHCONST LOADINT0 LOADINT1 LOADINT2 TRUE FALSE VOID PUSH 
 READLOCAL3 MOVEREADLOCAL MOVEREADLOCAL0 MOVEREADLOCAL1 MOVEREADLOCAL2 MOVEREADLOCAL3 READCAPTURED SETLOCAL IF JMP POPJMP
 NEWSCLOSURE PUREFUNC PASS NDEFS COPYCAPTURESTACK COPYCAPTURECLOSURE ECLOSURE NEWBOX UNBOX SETBOX FUNC TAILCALL TCOJMP
 CALLGLOBAL CALLGLOBALTAIL POPPURE POPSINGLE BEGINSCOPE LetVar LETENDSCOPE SDEF EDEF BIND SET""".split())
+EXT_OPS = {"FUNCNOARITY", "TAILCALLNOARITY", "CALLGLOBALNOARITY", "CALLGLOBALTAILNOARITY"}   # C01BC.xOps beyond the core
 ERRMAP = {"ArityMismatch": "arity", "TypeMismatch": "type", "FreeIdentifier": "free"}
+
+
+def s_prelude():
+    """The library procedures S defines in the object language (Base/Eval.lean `preludeSrc`), verbatim."""
+    t = open(os.path.join(C.LEAN, "SteelVerif", "Base", "Eval.lean")).read()
+    m = re.search(r'def preludeSrc : String :=\s*"(.*?)"\s*\n\s*\n', t, re.S)
+    # steel's `void` is the void value itself: `(void)` would apply a non-procedure
+    return m.group(1).replace('\\"', '"').replace("(void)", "void") if m else None
+
+
+STRICT_KINDS = {"arity", "type", "notproc", "free"}
+
+
+def agree(a, b):
+    """Two outcomes agree: equal values, or both errors of the same kind (a kind outside arity / type / notproc /
+    free is only compared as `error`)."""
+    if a[0] != b[0]:
+        return False
+    if a[0] == "err":
+        return a[1] == b[1] or a[1] not in STRICT_KINDS or b[1] not in STRICT_KINDS
+    return a[1] == b[1]
 
 
 def canon_val(v):
@@ -353,6 +375,22 @@ def tail_only_family(rng):
     return out
 
 
+def no_inline_param_assigners(text):
+    """Class predicate of K01g (inlined callee assigns its parameter): the same program with every top-level
+    procedure that assigns one of its own parameters made non-inlinable (`(set! f f)` right after its definition, in
+    the same unit: the inliner skips assigned names).  Returns None when the program has no such procedure."""
+    out, hit = [], False
+    for line in text.split("\n"):
+        out.append(line)
+        m = re.match(r"\(define (\S+) \(lambda \(([^)]*)\)", line) or re.match(r"\(define \((\S+)([^)]*)\)", line)
+        if m:
+            params = [x for x in m.group(2).replace(".", " ").split() if x]
+            if any("(set! %s " % x in line for x in params):
+                out.append("(set! %s %s)" % (m.group(1), m.group(1)))
+                hit = True
+    return "\n".join(out) if hit else None
+
+
 def bump(d, k, n=1):
     d[k] = d.get(k, 0) + n
 
@@ -362,7 +400,8 @@ def bc_replay(ctx, stats, label, progs, cores=None, spec=None, feats=None, known
     st = stats.setdefault(label, {"programs": 0, "units": 0, "units_core_modelled": 0, "units_ext_modelled": 0,
                                   "programs_fully_core_modelled": 0, "programs_fully_ext_modelled": 0,
                                   "units_replayed_vs_real": 0, "model_timeouts": 0, "compile_error_units": 0,
-                                  "crashed": 0, "unmodelled_reasons": {}, "opcodes_seen": {},
+                                  "crashed": 0, "unmodelled_reasons": {}, "ext_unmodelled_reasons": {},
+                                  "opcodes_seen": {},
                                   "listing_identical": 0, "listing_compared": 0, "listing_diff_classes": {},
                                   "five_way_units": 0, "five_way_programs_all_agree": 0,
                                   "tail_only_check": {"programs_real_listing_accepted": 0,
@@ -379,6 +418,7 @@ def bc_replay(ctx, stats, label, progs, cores=None, spec=None, feats=None, known
             continue
         r = parse_bc_real(rch)
         full_core, full_ext, all_agree = True, True, cores is not None
+        se_vals = []
         to_real = all(mu.get("TO", "").startswith("real=accept") for mu in m) and len(m) == len(r["units"]) and m
         to_model = all(mu.get("TO", "").endswith("model=accept") for mu in m) and m
         if to_real:
@@ -398,6 +438,18 @@ def bc_replay(ctx, stats, label, progs, cores=None, spec=None, feats=None, known
                 full_core = full_ext = all_agree = False
                 continue
             rres = canon_real(*ru["res"])
+            if rres[0] == "panic":
+                # the host panicked while running this unit: never acceptable (also C07)
+                full_core = full_ext = all_agree = False
+                stats["disagreements_checked"] += 1
+                if "K01m" in known and "shouldn't be hit" in rres[1] and "ALLOC" in (rch or ""):
+                    ctx.known_finding("id=K01m " + known["K01m"])
+                    bump(stats["known_hits"], "K01m")
+                else:
+                    ctx.violation("C01-%s-panic-%d.txt" % (label, i),
+                                  "# %s: the real engine PANICS in unit %d: %s\n# program (units separated by ;;;---)\n%s\n"
+                                  "# real listing of the unit\n%s\n" % (label, ui, rres[1], p, "\n".join(ru["listing"])))
+                break
             if not [l for l in ru["listing"] if l.strip()] and rres[0] == "err":
                 st["compile_error_units"] += 1      # rejected by the compiler: nothing was executed
                 full_core = full_ext = False
@@ -418,6 +470,9 @@ def bc_replay(ctx, stats, label, progs, cores=None, spec=None, feats=None, known
                 outcomes["XV"] = canon_model(xv)
             else:
                 full_ext = False
+                for reason in xv[1:].strip().split(","):
+                    if reason and reason != "skipped":
+                        bump(st["ext_unmodelled_reasons"], reason)
             if cores is not None:
                 for tag in ("SE", "MV"):
                     if tag in mu:
@@ -441,7 +496,17 @@ def bc_replay(ctx, stats, label, progs, cores=None, spec=None, feats=None, known
             else:
                 all_agree = False
             names = sorted(ran)
-            differ = [(a, b) for ai, a in enumerate(names) for b in names[ai + 1:] if ran[a] != ran[b]]
+            if ran.get("SE", ("", ""))[0] == "ok":
+                se_vals += [v for v in ran["SE"][1] if v != "#<procedure>"]
+            differ = [(a, b) for ai, a in enumerate(names) for b in names[ai + 1:] if not agree(ran[a], ran[b])]
+            if "XV" in ran and "real" in ran and not differ:
+                # the output the unit wrote: extended VM vs real engine
+                xo = mu.get("XO", "").replace("\\n", "\n").replace("\\\\", "\\").strip()
+                ro = "\n".join(ru["out"]).strip()
+                if xo != ro:
+                    differ = [("XV-output", "real-output")]
+                    ran = dict(ran, **{"XV-output": ("out", xo[:300]), "real-output": ("out", ro[:300])})
+                    names = sorted(ran)
             if differ:
                 all_agree = False
                 stats["disagreements_checked"] += 1
@@ -472,6 +537,22 @@ def bc_replay(ctx, stats, label, progs, cores=None, spec=None, feats=None, known
                     ctx.known_finding("id=K01d " + known["K01d"])
                     bump(stats["known_hits"], "K01d")
                     break
+                # K01g: the semantics disagrees with the real engine, the model VM on the REAL listing agrees with
+                # it (the compiler's output is wrong), and the difference vanishes when the procedures that assign
+                # their own parameter cannot be inlined
+                if ("K01g" in known and involves_real and "SE" in ran and ran.get("SE") == ran.get("MV")
+                        and agree(ran.get("XV", ran.get("RV", ("?", ""))), ran["real"])):
+                    p2 = no_inline_param_assigners(p)
+                    r2 = run_real_bc([p2])[0] if p2 else None
+                    if r2 is not None:
+                        vals2 = []
+                        for u2 in parse_bc_real(r2)["units"][:ui + 1]:
+                            if u2["res"] and u2["res"][0] == "ok":
+                                vals2 += [v for v in canon_real(*u2["res"])[1] if v != "#<procedure>"]
+                        if vals2 == se_vals:
+                            ctx.known_finding("id=K01g " + known["K01g"])
+                            bump(stats["known_hits"], "K01g")
+                            break
                 ctx.violation("C01-%s-%d.txt" % (label, i), text)
                 break
             if rres[0] != "ok":
@@ -641,9 +722,20 @@ def run(ctx):
     # execute) read into `List C01C.Instr` and run by `C01C.run`; outside the modelled set: counted per reason
     tie = {}
     rng2 = random.Random(ctx.seed + 101)
-    nwhole = len(corpus) + (100 if ctx.quick() else 800)
+    nwhole = len(corpus) + (140 if ctx.quick() else 3000)
+    ctx.log("differential and fragment stages done; real bytecode replay of %d whole programs" % nwhole)
     if len(ctx.violations) < 8:
-        bc_replay(ctx, stats, "whole", progs[:nwhole], known=known)
+        # the library procedures S defines in the object language (map, filter, foldl, foldr, for-each, reduce) are
+        # given to the real compiler as the first unit of the replayed program, in S's own words: the replay then
+        # covers them like user code ("whole"); "whole_native_library" replays the unmodified programs (units that
+        # call the engine's own map / foldl … are outside the model there)
+        pre = s_prelude()
+        if pre is None:
+            ctx.violation("C01-prelude.txt", "Base/Eval.lean: preludeSrc not found", no_input=True)
+        else:
+            bc_replay(ctx, stats, "whole", [pre + USEP + p for p in progs[:nwhole]], known=known)
+            bc_replay(ctx, stats, "whole_native_library", progs[:len(corpus) + 60 if ctx.quick() else nwhole], known=known)
+    ctx.log("whole-program replay done; core-language programs (listing comparison, five-way run)")
     # (d) programs INSIDE the core language, emitted as source + lowered Core term: compiler output comparison
     # (`compileTop e` vs the real listing) and the five-way run evalC / model compiler+VM / model VM on the real
     # listing / real engine / S
@@ -661,6 +753,7 @@ def run(ctx):
                 bump(cf, x)
         stats["core"]["generator_features"] = cf
         stats["core"]["sample"] = {"source_units": cps[0]["units"][:3], "core_terms": cps[0]["cores"][:3]}
+    ctx.log("core-language stage done; tail-only shapes")
     # (e) tail-only loop shapes: the static check C09.tailOnlyB on the REAL listing (accepted => the frame bound of
     # C09.core_loop_constant_space is a theorem about this listing); a rejected one = a tail call not compiled as one
     if len(ctx.violations) < 8:
@@ -700,9 +793,30 @@ def run(ctx):
                     bump(stats["known_hits"], "K01l")
                 else:
                     ctx.violation("C01-selftail-set.txt", "# %s\n# real %s\n# S %s\n" % (p, r["res"], m["res"]))
+    # (g) open finding K01m (deprecated ALLOC / SETALLOC / READALLOC op codes are still emitted when an inlined callee
+    # assigns its parameter and the caller's variable is captured; their handlers panic): directed family, real vs S
+    if "K01m" in known and len(ctx.violations) < 8:
+        fam3 = []
+        for body, call in (("(- (f3 p11) p12)", "(k 4)"), ("(+ p12 (f3 p11))", "(k 1)"), ("(begin (f3 p11) p11)", "(k 0)")):
+            for getk in ("(define k (car (map mk10 (list 3))))", "(define (ap h v) (h v))\n(define k (ap mk10 3))"):
+                fam3.append("(define (f3 p5) (set! p5 100) p5)\n(define (mk10 p11) (lambda (p12) %s))\n%s\n%s" % (body, getk, call))
+        fr = run_real(fam3)
+        fs_, _ = run_spec(fam3)
+        for p, r, m in zip(fam3, fr, fs_):
+            stats["programs"] += 1
+            if not same(r, m):
+                stats["disagreements_checked"] += 1
+                if r["res"][0] == "panic" and "shouldn't be hit" in r["res"][1]:
+                    ctx.known_finding("id=K01m " + known["K01m"])
+                    bump(stats["known_hits"], "K01m")
+                elif "K01g" in known and r["res"][0] == "ok":
+                    ctx.known_finding("id=K01g " + known["K01g"])      # the assignment lands on the caller's variable
+                    bump(stats["known_hits"], "K01g")
+                else:
+                    ctx.violation("C01-alloc-opcodes.txt", "# %s\n# real %s\n# S %s\n" % (p, r["res"], m["res"]))
     # which real op codes appeared in listings of this run, and which of them the model has
     seen = {}
-    for label in ("whole", "core", "tailonly"):
+    for label in ("whole", "whole_native_library", "core", "tailonly"):
         for k, v in stats.get(label, {}).get("opcodes_seen", {}).items():
             bump(seen, k, v)
     tie["real_opcodes_in_enum"] = tinfo.get("opcodes")
@@ -710,7 +824,12 @@ def run(ctx):
     tie["opcodes_seen_in_listings"] = len(seen)
     tie["opcodes_seen_and_modelled"] = sorted(k for k in seen if k in MODELLED_OPS)
     tie["opcodes_seen_not_modelled"] = {k: v for k, v in seen.items() if k not in MODELLED_OPS}
-    for label in ("whole", "core", "tailonly"):
+    tie["opcodes_seen_only_in_extended_vm"] = sorted(k for k in seen if k in EXT_OPS)
+    tie["opcode_histogram"] = dict(sorted(seen.items(), key=lambda kv: -kv[1]))
+    w = stats.get("whole")
+    if w:
+        tie["whole_programs_replayed_on_extended_vm"] = "%d of %d" % (w["programs_fully_ext_modelled"], w["programs"])
+    for label in ("whole", "whole_native_library", "core", "tailonly"):
         st = stats.get(label)
         if st:
             st.pop("opcodes_seen", None)
